@@ -67,6 +67,9 @@ def rng_source_ok(F, body, op, depth=0):
                     continue
             if c.is_(r'api::Covercrypt::rng$'):
                 continue
+            cal = lib.local_callee(F, c)
+            if cal is not None and cal.key in lib.guard_accessors(F):
+                continue
             return False, 'RNG obtained from %s' % c.name
         else:
             return False, 'RNG is %s' % (s[0],)
